@@ -229,7 +229,7 @@ func (e *c10env) ops() []c10op {
 			var opts []any
 			var post []func(n *mnode)
 			if r.P(40) {
-				l := gen.Pick(r, []slog.Level{slog.ErrorLevel, slog.InfoLevel, slog.TraceLevel, slog.AlwaysLevel})
+				l := gen.Pick(r, []slog.Level{slog.ErrorLevel, slog.InfoLevel, slog.TraceLevel, slog.AlwaysLevel, slog.PanicLevel, slog.PanicLevel})
 				opts = append(opts, slog.WithLevel(l))
 				post = append(post, func(n *mnode) { n.level = l })
 			}
